@@ -31,6 +31,7 @@ SITE_FUNCS = 'elementpath/xpath31/_xpath31_functions.py'
 # a key is a tuple (kind, payload):
 #   ('i', int) ('d', 'lexical decimal') ('f', 'lexical double' | 'NaN' | 'INF' | '-INF')
 #   ('s', str) ('u', str) ('b', bool) ('t', (y, m, d, tz_minutes|None))
+#   ('q', (namespace, local, prefix))  ('r', (constructor, lexical duration))  ('x', hex digits)  ('y', base64 text)
 
 
 def days_from_civil(y: int, m: int, d: int) -> int:
@@ -51,8 +52,33 @@ def cps(s: str) -> str:
     return '.'.join(str(ord(c)) for c in s)
 
 
+def duration_rep(text: str):
+    """(months, microseconds) of an xs:duration lexical form, independently of elementpath"""
+    import re
+    m = re.fullmatch(r'(-)?P(?:(\d+)Y)?(?:(\d+)M)?(?:(\d+)D)?(?:T(?:(\d+)H)?(?:(\d+)M)?(?:(\d+(?:\.\d+)?)S)?)?', text)
+    sign = -1 if m.group(1) else 1
+    y, mo, d, h, mi = (int(m.group(i) or 0) for i in range(2, 7))
+    sec = Fraction(m.group(7) or 0)
+    months = y * 12 + mo
+    micro = int((((d * 24 + h) * 60 + mi) * 60 + sec) * 1000000)
+    return sign * months, sign * micro
+
+
+def opq_text(tag: int, rep) -> str:
+    return f'o{tag}_' + '.'.join(str(int(x)) for x in rep)
+
+
 def key_proto(k) -> str:
     kind, p = k
+    if kind == 'q':
+        return opq_text(1, [ord(c) for c in '{%s}%s' % (p[0], p[1])])
+    if kind == 'r':
+        return opq_text(2, duration_rep(p[1]))
+    if kind == 'x':
+        return opq_text(3, bytes.fromhex(p))
+    if kind == 'y':
+        import base64
+        return opq_text(4, base64.b64decode(p))
     if kind == 'i':
         return f'i{p}'
     if kind == 'd':
@@ -87,6 +113,14 @@ def xq_string(s: str) -> str:
 
 def key_xpath(k) -> str:
     kind, p = k
+    if kind == 'q':
+        return f"QName({xq_string(p[0])}, {xq_string((p[2] + ':' if p[2] else '') + p[1])})"
+    if kind == 'r':
+        return f'xs:{p[0]}({xq_string(p[1])})'
+    if kind == 'x':
+        return f'xs:hexBinary({xq_string(p)})'
+    if kind == 'y':
+        return f'xs:base64Binary({xq_string(p)})'
     if kind == 'i':
         return str(p) if p >= 0 else f'xs:integer({xq_string(str(p))})'
     if kind == 'd':
@@ -111,7 +145,15 @@ def key_xpath(k) -> str:
 def atom_text(x) -> str:
     """canonical text of an atomic value coming out of the implementation"""
     import math
-    from elementpath.datatypes import AnyURI, Date10
+    from elementpath.datatypes import AnyURI, Date10, AbstractQName, Duration, HexBinary, Base64Binary
+    if isinstance(x, AbstractQName):
+        return opq_text(1, [ord(c) for c in '{%s}%s' % (x.namespace or '', x.local_name)])
+    if isinstance(x, Duration):
+        return opq_text(2, [x.months, int(Fraction(x.seconds) * 1000000)])
+    if isinstance(x, HexBinary):
+        return opq_text(3, x.decode())
+    if isinstance(x, Base64Binary):
+        return opq_text(4, x.decode())
     if isinstance(x, bool):
         return 'b1' if x else 'b0'
     if isinstance(x, int):
@@ -234,6 +276,9 @@ def op_xpath(op) -> str:
         if op[2] == '*':
             return f'{v(op[1])}?*'
         ks = op[2]
+        if len(op) > 3 and op[3] == 'unary':
+            # unary lookup with the context item set by the simple map operator
+            return f'{v(op[1])} ! ?({", ".join(key_xpath(k) for k in ks)})'
         if len(ks) == 1 and len(op) > 3 and op[3] == 'short':
             k = ks[0]
             if k[0] == 'i' and k[1] >= 0:
@@ -261,7 +306,44 @@ def op_xpath(op) -> str:
         return f'array:subarray({v(op[1])}, {op[2]}, {op[3]})'
     if n in ('ahead', 'atail', 'areverse', 'ajoin', 'aflatten', 'asize'):
         return f'array:{n[1:]}({v(op[1])})'
+    if n == 'afe':
+        return f'array:for-each({v(op[1])}, {fn1_xpath(op[2])})'
+    if n == 'afl':
+        return f'array:filter({v(op[1])}, {PRED_XP[op[2]]})'
+    if n == 'afoldl':
+        return f'array:fold-left({v(op[1])}, {v(op[2])}, {FN2_XP[op[3]]})'
+    if n == 'afoldr':
+        # array:fold-right calls f(member, accumulator): first parameter = the member
+        return f'array:fold-right({v(op[1])}, {v(op[2])}, {FN2_XP[op[3]]})'
+    if n == 'apair':
+        return f'array:for-each-pair({v(op[1])}, {v(op[2])}, {FN2_XP[op[3]]})'
+    if n == 'mfe':
+        return f'map:for-each({v(op[1])}, {FN2_XP[op[2]]})'
+    if n == 'deq':
+        return f'deep-equal({v(op[1])}, {v(op[2])})'
     raise ValueError(op)
+
+
+PRED_XP = {'t': 'function($xx) { true() }', 'f': 'function($xx) { false() }',
+           'ne': 'function($xx) { exists($xx) }', 'one': 'function($xx) { count($xx) = 1 }',
+           'nb': 'function($xx) { count($xx) }'}
+FN2_XP = {'cat': 'function($aa, $bb) { ($aa, $bb) }', 'rcat': 'function($aa, $bb) { ($bb, $aa) }',
+          'l': 'function($aa, $bb) { $aa }', 'r': 'function($aa, $bb) { $bb }',
+          'cntr': 'function($aa, $bb) { count($bb) }'}
+
+
+def fn1_xpath(f) -> str:
+    if f == 'id':
+        return 'function($xx) { $xx }'
+    if f == 'dup':
+        return 'function($xx) { ($xx, $xx) }'
+    if f == 'cnt':
+        return 'function($xx) { count($xx) }'
+    return 'function($xx) { %s }' % key_xpath(f[1])          # ('c', key)
+
+
+def fn1_proto(f) -> str:
+    return f if isinstance(f, str) else 'c:' + key_proto(f[1])
 
 
 def op_proto(op) -> str:
@@ -299,11 +381,21 @@ def op_proto(op) -> str:
         return f'aremove,{var(op[1])},' + '+'.join(str(p) for p in op[2])
     if n == 'asub':
         return f'asub,{var(op[1])},{op[2]}' + ('' if op[3] is None else f',{op[3]}')
+    if n == 'afe':
+        return f'afe,{var(op[1])},{fn1_proto(op[2])}'
+    if n == 'afl':
+        return f'afl,{var(op[1])},{op[2]}'
+    if n in ('afoldl', 'afoldr', 'apair'):
+        return f'{n},{var(op[1])},{var(op[2])},{op[3]}'
+    if n == 'mfe':
+        return f'mfe,{var(op[1])},{op[2]}'
+    if n == 'deq':
+        return f'deq,{var(op[1])},{var(op[2])}'
     raise ValueError(op)
 
 
 def op_ordering(op) -> str:
-    if op[0] in ('mkeys', 'mforeach') or (op[0] == 'lookup' and op[2] == '*'):
+    if op[0] in ('mkeys', 'mforeach', 'mfe') or (op[0] == 'lookup' and op[2] == '*'):
         return 'freeSeq'
     if op[0] == 'mfind':
         return 'freeArr'
@@ -352,10 +444,63 @@ def run_impl(ops, seconds: int = 10):
     try:
         return run_impl_inner(ops)
     except CaseTimeout:
-        return [('ERR:OTHER:Timeout', ['TIMEOUT'], ['TIMEOUT'])] * len(ops)
+        return [('ERR:OTHER:Timeout', ['TIMEOUT'], ['TIMEOUT'], 'ok')] * len(ops)
     finally:
         signal.alarm(0)
         signal.signal(signal.SIGALRM, old)
+
+
+def lazy_token_check(op, expr, variables, res, status) -> str:
+    """The constructor *token* itself offers keys()/items()/__call__ (maps) and items()/__call__
+    (arrays) without being evaluated first (XPathMap._evaluate / XPathArray._evaluate).  They must
+    give what evaluate() gives, and must not freeze the token: a later evaluate() with other
+    bindings has to see the other bindings."""
+    from elementpath import XPathContext
+    tok = _PARSER().parse(expr)
+    ctx = XPathContext(_ROOT, variables=variables)
+    if op[0] == 'mctor':
+        try:
+            pairs = list(tok.items(ctx))
+            keys = list(tok.keys(ctx))
+        except Exception as e:  # noqa
+            return 'ok' if err_text(e) == status else f'items() raised {err_text(e)}, evaluate gave {status}'
+        if status != 'ok':
+            return f'items() succeeded, evaluate gave {status}'
+        lazy = '{' + ','.join(atom_text(k) + '=' + show_seq(v, False) for k, v in pairs) + '}'
+        eager = show_item(res, False)
+        if lazy != eager:
+            return f'items(): {lazy} evaluate: {eager}'
+        if [atom_text(k) for k in keys] != [atom_text(k) for k, _ in pairs]:
+            return 'keys() differ from items()'
+        for k, val in pairs:
+            if show_seq(tok(k, context=ctx), False) != show_seq(val, False):
+                return f'token({atom_text(k)}) differs from items()'
+        # second evaluation of the same token with every variable bound to the empty sequence
+        ctx2 = XPathContext(_ROOT, variables={n: [] for n in variables})
+        again = tok.evaluate(ctx2)
+        expect = '{' + ','.join(atom_text(k) + '=()' for k, _ in pairs) + '}'
+        if show_item(again, False) != expect:
+            return f'after items(), evaluate with empty bindings gave {show_item(again, False)}'
+        return 'ok'
+    try:
+        members = list(tok.items(ctx))
+    except Exception as e:  # noqa
+        return 'ok' if err_text(e) == status else f'items() raised {err_text(e)}, evaluate gave {status}'
+    if status != 'ok':
+        return f'items() succeeded, evaluate gave {status}'
+    lazy = '[' + ','.join(show_seq(m, False) for m in members) + ']'
+    eager = show_item(res, False)
+    if lazy != eager:
+        return f'items(): {lazy} evaluate: {eager}'
+    for i, m in enumerate(members, 1):
+        if show_seq(tok(i, context=ctx), False) != show_seq(m, False):
+            return f'token({i}) differs from items()'
+    ctx2 = XPathContext(_ROOT, variables={n: [] for n in variables})
+    if op[0] == 'asquare':
+        expect = '[' + ','.join('()' for _ in members) + ']'
+        if show_item(tok.evaluate(ctx2), False) != expect:
+            return 'after items(), evaluate with empty bindings kept the old members'
+    return 'ok'
 
 
 def run_impl_inner(ops):
@@ -378,6 +523,14 @@ def run_impl_inner(ops):
             res, status = [], 'ERR:OTHER:RecursionError'
         except Exception as e:  # noqa -- everything the implementation raises is an observation
             res, status = [], err_text(e)
+        lazy = 'ok'
+        if op[0] in ('mctor', 'asquare', 'acurly'):
+            try:
+                lazy = lazy_token_check(op, expr, variables, res, status)
+            except RecursionError:
+                lazy = 'RecursionError'
+            except Exception as e:  # noqa
+                lazy = 'lazy:' + err_text(e)
         values.append(res)
         orderings.append(op_ordering(op))
         try:
@@ -389,7 +542,7 @@ def run_impl_inner(ops):
             raw = srt = ['CYCLE-OR-TOO-BIG'] * len(values)
         except Exception as e:  # noqa
             raw = srt = [f'ERR:OTHER:{type(e).__name__}'] * len(values)
-        out.append((status, raw, srt))
+        out.append((status, raw, srt, lazy))
     return out
 
 
@@ -407,6 +560,14 @@ KEY_POOLS = {
              ('t', (2000, 1, 2, 840)), ('t', (2000, 1, 1, -600)), ('t', (1999, 12, 31, None)),
              ('t', (2000, 1, 2, None))],
 }
+KEY_POOLS['opq'] = [('q', ('u', 'a', '')), ('q', ('u', 'a', 'p')), ('q', ('v', 'a', '')), ('q', ('u', 'b', '')),
+                    ('r', ('dayTimeDuration', 'PT24H')), ('r', ('duration', 'P1D')),
+                    ('r', ('yearMonthDuration', 'P12M')), ('r', ('duration', 'P1Y')),
+                    ('r', ('dayTimeDuration', 'PT0S')), ('r', ('yearMonthDuration', 'P0M')),
+                    ('r', ('duration', 'P1DT0.5S')), ('x', '00FF'), ('x', '00ff'), ('x', ''), ('x', '61')]
+# hexBinary against base64Binary with the same octets (F15k), integers beyond 2^53 against doubles (F15m)
+CLASH_OPQ = [('y', 'AP8='), ('y', ''), ('y', 'YQ=='), ('x', '00FF'), ('x', ''), ('i', 9007199254740993),
+             ('f', '9007199254740992')]
 # pairs that hit the year-in-the-hash behaviour of dates (F15f) and boolean-as-integer (F15d) go to
 # their own pools, drawn rarely
 CLASH_DATES = [('t', (2000, 12, 31, -720)), ('t', (2001, 1, 1, 720))]
@@ -416,7 +577,9 @@ def gen_key(rng, flavour):
     r = rng.random()
     if flavour == 'clash' and r < 0.5:
         return rng.choice(KEY_POOLS['bool'] + [('i', 0), ('i', 1), ('f', '1'), ('d', '0')] + CLASH_DATES +
-                          KEY_POOLS['date'])
+                          KEY_POOLS['date'] + CLASH_OPQ)
+    if r > 0.94:
+        return rng.choice(KEY_POOLS['opq'])
     if r < 0.40:
         return rng.choice(KEY_POOLS['num'])
     if r < 0.50:
@@ -489,8 +652,12 @@ class Gen:
             return sum(sz[i] for i in op[1]) + 1
         if n in ('aput', 'ainsert'):
             return sz[op[1]] + sz[op[3]] + 1
-        if n == 'aappend':
+        if n in ('aappend', 'afoldl', 'afoldr', 'apair'):
             return sz[op[1]] + sz[op[2]] + 1
+        if n == 'afe':
+            return 2 * sz[op[1]] + 1
+        if n == 'deq':
+            return 1
         return sz[op[1]] + 1
 
     def add(self, op, typ):
@@ -530,7 +697,11 @@ class Gen:
                         'mmerge', 'mfind', 'lookup']
         if a is not None:
             choices += ['aget', 'aput', 'aput', 'ainsert', 'aappend', 'aappend', 'aremove', 'asub', 'ahead',
-                        'atail', 'areverse', 'ajoin', 'aflatten', 'asize', 'lookup']
+                        'atail', 'areverse', 'ajoin', 'aflatten', 'asize', 'lookup', 'afe', 'afl', 'afoldl', 'afoldr',
+                        'apair']
+        if m is not None:
+            choices += ['mfe']
+        choices += ['deq', 'deq']
         c = rng.choice(choices)
         bad = rng.random() < 0.03        # ill-typed operand
         if c == 'mctor':
@@ -544,6 +715,19 @@ class Gen:
             return self.add(('acurly', val), 'arr')
         mm = val if bad else m
         aa = val if bad else a
+        if c == 'deq':
+            return self.gen_deq()
+        if c == 'afe':
+            f = rng.choice(['id', 'dup', 'cnt', ('c', self.key())])
+            return self.add(('afe', aa, f), 'arr')
+        if c == 'afl':
+            return self.add(('afl', aa, rng.choice(['t', 'f', 'ne', 'ne', 'one', 'one', 'nb'])), 'arr')
+        if c in ('afoldl', 'afoldr'):
+            return self.add((c, aa, val, rng.choice(['cat', 'rcat', 'l', 'r', 'cntr', 'cat'])), 'seq')
+        if c == 'apair':
+            return self.add(('apair', aa, self.pick('arr'), rng.choice(['cat', 'rcat', 'l', 'r', 'cntr'])), 'arr')
+        if c == 'mfe':
+            return self.add(('mfe', mm, rng.choice(['cat', 'rcat', 'r', 'l', 'cntr'])), 'free')
         if c == 'mput':
             k = self.existing_key(m) if rng.random() < 0.5 else self.key()
             return self.add(('mput', mm, k, val), 'map')
@@ -578,10 +762,12 @@ class Gen:
                 ks = [('i', rng.randrange(0, 5)) for _ in range(rng.choice([1, 1, 2]))]
                 if self.flavour == 'clash' and rng.random() < 0.3:
                     ks = [('b', True)]
+                elif rng.random() < 0.06:
+                    ks = [rng.choice([('s', 'a'), ('d', '1.0'), ('f', '1')])]     # not an integer: XPTY0004
             else:
                 ks = [self.existing_key(src) if rng.random() < 0.6 else self.key()
                       for _ in range(rng.choice([1, 1, 2]))]
-            return self.add(('lookup', src, ks, rng.choice(['short', 'paren'])), 'seq')
+            return self.add(('lookup', src, ks, rng.choice(['short', 'paren', 'paren', 'unary'])), 'seq')
         size = 4
         pos = rng.choice([1, 1, 2, 2, 3, 0, -1, 4, 5, rng.randrange(-1, size + 3)])
         if c == 'aget':
@@ -606,12 +792,30 @@ class Gen:
                 xs = [self.pick('arr') for _ in range(rng.choice([0, 1, 2, 2, 3]))]
                 self.add(('seq', [x for x in xs if x is not None]), 'arrs')
                 src = len(self.ops) - 1
-            return self.add(('ajoin', src), 'arr')
+            return self.add(('ajoin', val if bad else src), 'arr')
         if c == 'aflatten':
             return self.add(('aflatten', val), 'seq')
         if c == 'asize':
             return self.add((c, aa), 'seq')
         raise AssertionError(c)
+
+    def gen_deq(self):
+        """deep-equal of two values: the same value, two arbitrary ones, or a value and a *twin* rebuilt
+        by the same operation with equal-but-different literals (1 / 1.0 / 1e0, 'a' / anyURI a, …)"""
+        rng = self.rng
+        x = self.any_value()
+        if x is None:
+            return self.add(('seq', [self.key()]), 'seq')
+        r = rng.random()
+        if r < 0.15:
+            return self.add(('deq', x, x), 'seq')
+        if r < 0.45:
+            return self.add(('deq', x, self.any_value()), 'seq')
+        op = self.ops[x]
+        tw = twist_op(rng, op, self.flavour)
+        self.add(tw, self.types[x])
+        y = len(self.ops) - 1
+        return self.add(('deq', x, y) if rng.random() < 0.5 else ('deq', y, x), 'seq')
 
     def existing_key(self, m):
         """a key that was (probably) put into map $m: scan the ops that built it; else random —
@@ -639,6 +843,27 @@ class Gen:
         return self.ops[:self.maxlen + 1]
 
 
+def twist_op(rng, op, flavour):
+    """the same operation with some literals replaced by equal-but-different ones"""
+    def tk(k):
+        return twist(rng, k, flavour) if rng.random() < 0.6 else k
+    n = op[0]
+    if n == 'seq':
+        return ('seq', [a if isinstance(a, int) else tk(a) for a in op[1]])
+    if n == 'mctor':
+        es = [(tk(k), i) for k, i in op[1]]
+        if rng.random() < 0.3:
+            rng.shuffle(es)
+        return ('mctor', es)
+    if n == 'mput':
+        return ('mput', op[1], tk(op[2]), op[3])
+    if n == 'mentry':
+        return ('mentry', tk(op[1]), op[2])
+    if n == 'mremove':
+        return ('mremove', op[1], [tk(k) for k in op[2]])
+    return op
+
+
 def twist(rng, k, flavour):
     kind, p = k
     try:
@@ -660,6 +885,16 @@ def twist(rng, k, flavour):
             return ('s', p)
         if kind == 'b' and flavour == 'clash':
             return ('i', 1 if p else 0)
+        if kind == 'q':
+            return ('q', (p[0], p[1], 'zz' if not p[2] else ''))
+        if kind == 'r':
+            tw = {'PT24H': ('duration', 'P1D'), 'P1D': ('dayTimeDuration', 'PT24H'), 'P12M': ('duration', 'P1Y'),
+                  'P1Y': ('yearMonthDuration', 'P12M'), 'PT0S': ('yearMonthDuration', 'P0M'),
+                  'P0M': ('dayTimeDuration', 'PT0S')}
+            return ('r', tw.get(p[1], p))
+        if kind == 'x':
+            return ('x', p.lower() if p != p.lower() else p.upper()) if flavour != 'clash' else rng.choice(
+                [('y', __import__('base64').b64encode(bytes.fromhex(p)).decode())])
     except (ValueError, ArithmeticError):
         pass
     return k
@@ -709,6 +944,26 @@ CORPUS = [
      ('aflatten', 0), ('aput', 0, 1, 4), ('ainsert', 0, 1, 4), ('lookup', 0, '*')],
     # F15i: arrays inside a sequence-valued member are flattened too
     [('seq', [('i', 1)]), ('acurly', 0), ('seq', [1, 1, 1]), ('ajoin', 2), ('ainsert', 3, 2, 2), ('aflatten', 4)],
+    # higher-order array functions and map:for-each with function arguments
+    [('seq', [('i', 1), ('i', 2)]), ('seq', []), ('seq', [('s', 'z')]), ('asquare', [0, 1, 2]), ('afe', 3, 'dup'),
+     ('afe', 3, 'cnt'), ('afe', 3, ('c', ('d', '1.5'))), ('afl', 3, 'ne'), ('afl', 3, 'one'), ('afl', 3, 'nb'),
+     ('afoldl', 3, 0, 'rcat'), ('afoldr', 3, 0, 'rcat'), ('afoldl', 3, 1, 'cntr'), ('apair', 3, 4, 'cat'),
+     ('mctor', [(('i', 1), 0), (('s', 'a'), 1)]), ('mfe', 14, 'cat'), ('mfe', 14, 'cntr')],
+    # deep-equal: NaN, numeric promotion, nesting, singleton vs sequence, bool vs int (F15b, F15q)
+    [('seq', [('f', 'NaN')]), ('seq', [('d', '0.1')]), ('seq', [('f', '0.1')]), ('mctor', [(('i', 1), 0), (('s', 'a'), 1)]),
+     ('mctor', [(('u', 'a'), 2), (('d', '1.0'), 0)]), ('deq', 3, 4), ('asquare', [3, 0]), ('asquare', [4, 0]), ('deq', 6, 7),
+     ('seq', [3, ('i', 1)]), ('seq', [4, ('i', 2)]), ('deq', 9, 10), ('seq', [('b', True)]), ('seq', [('i', 1)]),
+     ('deq', 12, 13), ('deq', 1, 2), ('mctor', [(('i', 1), 12)]), ('mctor', [(('i', 1), 13)]), ('deq', 16, 17)],
+    # opaque keys: QName prefixes, durations across subtypes, hex case; F15k hex vs base64; F15m
+    [('seq', [('i', 1)]), ('mctor', [(('q', ('u', 'a', '')), 0), (('r', ('duration', 'P1D')), 0), (('x', '00FF'), 0)]),
+     ('mget', 1, ('q', ('u', 'a', 'p'))), ('mget', 1, ('r', ('dayTimeDuration', 'PT24H'))), ('mget', 1, ('x', '00ff')),
+     ('mput', 1, ('q', ('v', 'a', '')), 0), ('mkeys', 5),
+     ('mctor', [(('r', ('dayTimeDuration', 'PT0S')), 0), (('r', ('yearMonthDuration', 'P0M')), 0)]),
+     ('mcontains', 1, ('y', 'AP8=')), ('mget', 1, ('y', 'AP8='))],
+    [('seq', [('i', 9007199254740993)]), ('seq', [('f', '9007199254740992')]), ('deq', 0, 1)],
+    # F15t: a QName key is not the string of its lexical form
+    [('seq', [('i', 1)]), ('mctor', [(('q', ('u', 'b', '')), 0)]), ('mremove', 1, [('s', 'b')]), ('mcontains', 1, ('s', 'b')),
+     ('mput', 1, ('s', 'b'), 0), ('mfind', 1, ('s', 'b'))],
     # nesting, flatten, find, for-each, lookup
     [('seq', [('i', 1)]), ('asquare', [0, 0]), ('asquare', [1, 0]), ('mctor', [(('s', 'a'), 2), (('i', 1), 1)]),
      ('asquare', [3, 2]), ('aflatten', 4), ('mfind', 4, ('s', 'a')), ('mfind', 4, ('d', '1.0')), ('mforeach', 3),
@@ -736,7 +991,7 @@ def parse_answer(ans: str):
 
 
 KIND_NAMES = {'i': 'integer', 'd': 'decimal', 'f': 'double', 's': 'string', 'u': 'anyURI', 'b': 'boolean',
-              't': 'date'}
+              't': 'date', 'q': 'QName', 'r': 'duration', 'x': 'hexBinary', 'y': 'base64Binary'}
 
 
 def op_keys(op):
@@ -777,6 +1032,13 @@ def classify_tags(ops, k):
         tags.add('F15d')
     if sum(1 for kk in keys if kk[0] == 't') >= 2:
         tags.add('F15f')
+    lits = [a for op in ops[:k + 1] if op[0] == 'seq' for a in op[1] if not isinstance(a, int)]
+    lits += [op[2][1] for op in ops[:k + 1] if op[0] == 'afe' and not isinstance(op[2], str)]
+    if any(kk[0] == 'x' for kk in keys + lits) and any(kk[0] == 'y' for kk in keys + lits):
+        tags.add('F15k')
+    if any(op[0] == 'deq' for op in ops[:k + 1]) and any(kk[0] == 'i' and abs(kk[1]) > 2 ** 53 for kk in keys + lits) \
+            and any(kk[0] == 'f' for kk in keys + lits):
+        tags.add('F15m')
     return sorted(tags)
 
 
@@ -793,7 +1055,7 @@ def compare(run: Run, cases, count=True) -> None:
         if count:
             st.case(line, nontrivial=len(ops) > 1)
             st.count(f'len={min(len(ops), 15) // 5 * 5}+')
-        for k, ((ms, ss, ok, triples), (istat, iraw, isrt)) in enumerate(zip(blocks, impl)):
+        for k, ((ms, ss, ok, triples), (istat, iraw, isrt, lazy)) in enumerate(zip(blocks, impl)):
             op = ops[k]
             prefix = {'ops': [op_xpath(o) for o in ops[:k + 1]], 'line': line_of(ops[:k + 1]),
                       'history': to_jsonable(ops[:k + 1])}
@@ -820,6 +1082,11 @@ def compare(run: Run, cases, count=True) -> None:
                         f'value $v{j} created earlier changed (in-place mutation)')
                 run.disagree(Disagreement(prefix, i_s, m_s, spec=s_s, what=what, site=site, tags=tags))
                 stop = True
+            if lazy != 'ok':
+                run.disagree(Disagreement(prefix, 'token-api: ' + lazy, None, spec='token-api: same as evaluate()',
+                                          what='constructor token keys()/items()/call vs evaluate()',
+                                          site='elementpath/xpath_tokens/maps.py|arrays.py _evaluate', tags=tags))
+                stop = True
             # 2. tie: implementation vs model (insertion order, exact)
             i_r = istat + ' ' + ' '.join(iraw)
             m_r = ms + ' ' + ' '.join(t[0] for t in triples)
@@ -840,10 +1107,10 @@ def from_jsonable(ops):
     """inverse of to_jsonable for histories (keys and ops are tuples, argument lists are lists)"""
     def key(k):
         kind, p = k
-        return (kind, tuple(p)) if kind == 't' else (kind, p)
+        return (kind, tuple(p)) if kind in ('t', 'q', 'r') else (kind, p)
 
     def is_key(x):
-        return isinstance(x, list) and len(x) == 2 and isinstance(x[0], str) and x[0] in 'idfsubt' and len(x[0]) == 1
+        return isinstance(x, list) and len(x) == 2 and isinstance(x[0], str) and x[0] in 'idfsubtqrxy' and len(x[0]) == 1
 
     def conv(x):
         if is_key(x):
@@ -874,7 +1141,7 @@ def op_vars(op):
         return [op[2]]
     if n in ('mput', 'aput', 'ainsert'):
         return [op[1], op[3]]
-    if n == 'aappend':
+    if n in ('aappend', 'afoldl', 'afoldr', 'apair', 'deq'):
         return [op[1], op[2]]
     return [op[1]]
 
@@ -891,8 +1158,8 @@ def rename_vars(op, f):
         return (n, op[1], f(op[2]))
     if n in ('mput', 'aput', 'ainsert'):
         return (n, f(op[1]), op[2], f(op[3]))
-    if n == 'aappend':
-        return (n, f(op[1]), f(op[2]))
+    if n in ('aappend', 'afoldl', 'afoldr', 'apair', 'deq'):
+        return (n, f(op[1]), f(op[2]), *op[3:])
     return (n, f(op[1]), *op[2:])
 
 
@@ -912,16 +1179,20 @@ def first_diff(a, b):
 
 def correspond(run: Run) -> None:
     rng = run.rng
-    n = run.scale(4000, 40000)
+    n = run.scale(2500, 36000)
     cases = [list(c) for c in CORPUS]
     for _ in range(n):
         cases.append(Gen(rng, run.quick).build())
     run.stats.rule = (
         'operation histories of 1..15 steps; each step one XPath 3.1 expression (sequence / map / array '
-        'constructor, map:put/remove/get/contains/size/keys/entry/merge(6 option values)/find/for-each, '
+        'constructor, map:put/remove/get/contains/size/keys/entry/merge(6 option values)/find/for-each (also with 5 '
+        'binary functions), array:for-each/filter/fold-left/fold-right/for-each-pair with small function arguments, '
+        'deep-equal (value against twin rebuilt with equal-but-different literals), '
         'array:get/put/insert-before/append/remove/subarray/head/tail/reverse/join/flatten/size, ? lookup) over '
         'operands created by earlier steps and literal keys of kinds integer, decimal, double (NaN, INF, -0), '
-        'string, anyURI, boolean, date (with/without timezone); after every step every value created so far is '
+        'string, anyURI, boolean, date (with/without timezone), QName, durations, hexBinary, base64Binary; constructor '
+        'steps are also run through the lazy token API (keys/items/call, then re-evaluated with other bindings); '
+        'after every step every value created so far is '
         're-observed and compared with the Lean model (exact) and the Lean spec (order-free). '
         'distinct = distinct histories with at least two steps')
     for i in range(0, len(cases), 500):
